@@ -8,6 +8,7 @@ From BS Require Import Model.Base Model.Regex Model.ExprParser Model.Script Mode
   Proofs.ScriptFacts Proofs.PErrFacts Proofs.C06 Proofs.C06Cols Proofs.C06Progress Proofs.NumLit Proofs.Total
   Proofs.ExprFuel Proofs.TotalFuel Proofs.C06Shift Proofs.C06ShiftCont.
 From BS Require Import Model.Num Gen.Unicode Gen.Regexes.
+From BS Require Proofs.C10split.
 
 (* ---- (1) accounting: an accepted text leaves nothing open and every logical line was folded exactly once ---- *)
 Theorem C06_accounts : forall chunks start s,
@@ -79,8 +80,13 @@ Theorem C06_column_points_at_remainder : forall ps n line e,
   no_lf line -> pstep ps n line = RErr e -> e_col e = 1 \/ expr_error_at line e.
 Proof. exact pstep_err_column. Qed.
 Print Assumptions C06_column_points_at_remainder.
-(* _partial with respect to parse_script: the hypothesis "no LF in the logical line" is proved for the lines of the direct
-   splitter (C10_lines_have_no_lf) but not through the regex-based split / continuation join of the shared model. *)
+(* With respect to parse_script the hypothesis "no LF in the logical line" always holds: the regex-based split of the shared
+   model is the direct splitter for every text, whose lines are LF-free, and the comment filter / continuation join only
+   delete characters and insert spaces (Proofs/C10split.v; also restated as C10_logical_lines_have_no_lf). *)
+Theorem C06_logical_lines_have_no_lf : forall chunks lines, split_chunks chunks = ROk lines ->
+  forall ix line, In (ix, line) (fst (llines lines 0 ls_init)) -> no_lf line.
+Proof. exact BS.Proofs.C10split.logical_lines_no_lf. Qed.
+Print Assumptions C06_logical_lines_have_no_lf.
 
 (* ---- (3) shift ---- *)
 (* k comment or blank lines in front: the result is the same with every reported line number + k *)
